@@ -189,7 +189,7 @@ pub fn run(env: &Env, known: &Known, started: Instant, replayed: u64, replay_vio
     verify_catalogue();
     let cfg = ChoiceRun { env, pid: PID, part: "non-xml-chars-probe", cases: env.tier.pick(2_000, 20_000), max_len: 8, known };
     let probe = run_choices(&cfg, run_nonxml_probe);
-    let cfg = ChoiceRun { env, pid: PID, part: "documents", cases: env.tier.pick(30_000, 900_000), max_len: 900, known };
+    let cfg = ChoiceRun { env, pid: PID, part: "documents", cases: env.tier.pick(100_000, 900_000), max_len: 900, known };
     let rr = run_choices(&cfg, run_case);
     let ev = Evidence {
         env, pid: PID, level: "exploration",
